@@ -18,6 +18,8 @@ CHECKS = {
          "CGLS is a contract stub here (its own property is C16); behaviour with a non-converged inner solver (finite maxit) is outside the claim; concrete small-integer forward matrices, symbolic spreads"),
  'C07': ("for matrix-/sparse-/function-backed linear models with every listed geometry and for the Deconvolution1D (all PSFs, size parities, 5 BCs, legacy), Deconvolution2D (PSF 2x2..4x4, 5 BCs) and Abel1D models at small sizes: <Ax,y> = <x,A*y> for ALL x,y (bilinear SMT identity / 1e-9 over a box), get_matrix()@x = forward(x), T swaps forward/adjoint, T.T = A",
          "FFT convolution replaced by the validated direct-sum reference; dims <= 8 (1D) / 5x5 (2D)"),
+ 'C09': ("joints of 2-3 uninterpreted factors (chain, fork, collider, pair), both Gibbs samplers, probe block samplers that log the target they hold (as logd at a symbolic point) and return fresh symbolic values: in every sweep (<=3, warm-up + sampling, repeated sample calls, 1-2 steps per block) each block's target equals the joint conditioned on the values already updated in this sweep and the previous values of the rest - for ALL values; blocks visited once per sweep in parameter order, sampler started from the block's current value, stored sample t = tuple after sweep t, continuation from the last stored values; a real MH block inside the sweep must perform a Metropolis step for the CURRENT conditional (C02 oracle re-asked inside the sweep)",
+         "block dims 1; invariance of the composite kernel is the textbook consequence (not decided)"),
  'C10': ("for Gaussian (cov = 1/s, prec = s; dims 2-4; symbolic mean) and GMRF (prec = d; bc zero/periodic/neumann x order 0-2) likelihoods with a Gamma(alpha, beta) hyper-prior, both interfaces: the (shape, scale) of the Gamma the sampler actually draws from (captured at numpy.random.gamma) satisfies target.logd(s1) - target.logd(s2) = (shape-1)(log s1 - log s2) - (s1-s2)/scale for ALL data, means, alpha, beta, s1, s2, where target is the posterior the sampler was given; unsupported dependences (1/s^2, 2s, s^2, sqrt(s) via sqrtprec, two occurrences, vector Gamma, non-Gamma prior, LMRF with non-reciprocal scale / non-zero location) are rejected before any draw; Direct's state is the target's own draw",
          "numpy's gamma generator taken by its documented density; regularized (implicit) Gaussians have no density and are outside the proportionality claim"),
  'C12': ("for matrix / callable-pair / Jacobian / gradient-callable models and every listed domain and range geometry: forward on a parameter vector, a CUQIarray in either representation, function values with is_par=False and Samples (2-3 columns) all equal range.fun2par(f(domain.par2fun(p))) for ALL p with the documented wrapping; gradient = J_F(p)^T direction (symbolic derivative incl. the geometry's own derivative) or refused exactly where it cannot be formed; model(dist) only renames the input",
